@@ -4,6 +4,11 @@
   guard (the property's own quantifier) are mirror-invariant on every board.  Statements only; proofs in Lemmas/MirrorCount.lean.
 -/
 import ChessVerif.Lemmas.MirrorCount
+import ChessVerif.Lemmas.MirrorBB
+import ChessVerif.Lemmas.MirrorPawn
+import ChessVerif.Lemmas.WfStep
+import ChessVerif.Lemmas.Forbidden
+import ChessVerif.Model.Eval
 import ChessVerif.Lemmas.Material
 import ChessVerif.Lemmas.WfHyp
 import ChessVerif.Lemmas.Attack
@@ -163,5 +168,170 @@ theorem C13_bitboards_mirror (b : List Nat) (hlen : b.length = 64) (hb : ∀ x, 
   rw [bbOfPiece_testBit, bbOfPiece_testBit, mirrorBoard_length, hlen, mirrorBoard_at b s hs]
   simp only [hs, hf, decide_true, Bool.true_and]
   exact decide_eq_decide.2 (mirrorPiece_inj _ _ hcodes hpc)
+
+/-- the bitboard of a recoloured piece on the mirrored board is the flip of the piece's bitboard (`MirrorBB` form of
+    `C13_bitboards_mirror`) -/
+theorem pieceBB_mirror (b : List Nat) (hlen : b.length = 64) (hb : ∀ x, x ∈ b → x ≤ 12) (pc : Nat) (hpc : pc ≤ 12) :
+    MirrorBB (bbOfPiece b pc) (bbOfPiece (mirrorBoard b) (mirrorPiece pc)) :=
+  fun s hs => C13_bitboards_mirror b hlen hb pc hpc s hs
+
+def kingMaskMirrorOK : Bool :=
+  (List.range 64).all fun k => (List.range 64).all fun s => (kingMask (flipV k)).testBit s == (kingMask k).testBit (flipV s)
+theorem kingMaskMirrorOK_true : kingMaskMirrorOK = true := by decide +kernel
+theorem kingMask_mirror (k : Nat) (hk : k < 64) : MirrorBB (kingMask k) (kingMask (flipV k)) := by
+  intro s hs
+  have h := kingMaskMirrorOK_true
+  simp only [kingMaskMirrorOK, List.all_eq_true, List.mem_range, beq_iff_eq] at h
+  exact h k hk s hs
+
+/-- C13 (a whole evaluator term, pawn attack sets): the squares attacked by the pawns of colour `c` on the board and the squares
+    attacked by the pawns of the other colour on the mirrored board are flips of each other (`Setup.attPawn` of `setupSide`), through
+    `shift_mirror`: NE ↔ SE and NW ↔ SW with the same file masks -/
+theorem C13_pawn_attacks_mirror (b : List Nat) (hlen : b.length = 64) (hb : ∀ x, x ∈ b → x ≤ 12) (c : Nat) (hc : c ≤ 1) :
+    MirrorBB (pawnAttacks c (bbOfPiece b (mkPiece c PAWN))) (pawnAttacks (1 - c) (bbOfPiece (mirrorBoard b) (mkPiece (1 - c) PAWN))) := by
+  have hm : mirrorPiece (mkPiece c PAWN) = mkPiece (1 - c) PAWN := by
+    have : c = 0 ∨ c = 1 := by omega
+    rcases this with rfl | rfl <;> decide
+  have hpc : mkPiece c PAWN ≤ 12 := by
+    have : c = 0 ∨ c = 1 := by omega
+    rcases this with rfl | rfl <;> decide
+  have h := pieceBB_mirror b hlen hb (mkPiece c PAWN) hpc
+  rw [hm] at h
+  exact h.pawnAttacks (bbOfPiece_lt b _ hlen) (bbOfPiece_lt _ _ (mirrorBoard_length b)) c hc
+
+/-- C13 (a whole evaluator term, the king shelter): `scoreKingShelter` — the bonus per own pawn next to the king square — of colour
+    `c` with the king on `k` equals that of the other colour on the mirrored board with the king on the flipped square -/
+theorem C13_king_shelter_mirror (p q : Position) (hq : q.board = mirrorBoard p.board) (hlen : p.board.length = 64)
+    (hb : ∀ x, x ∈ p.board → x ≤ 12) (c : Nat) (hc : c ≤ 1) (k : Nat) (hk : k < 64) :
+    scoreKingShelter (BBs.of q) (1 - c) (flipV k) = scoreKingShelter (BBs.of p) c k := by
+  have hm : mirrorPiece (mkPiece c PAWN) = mkPiece (1 - c) PAWN := by
+    have : c = 0 ∨ c = 1 := by omega
+    rcases this with rfl | rfl <;> decide
+  have hpc : mkPiece c PAWN ≤ 12 := by
+    have : c = 0 ∨ c = 1 := by omega
+    rcases this with rfl | rfl <;> decide
+  have h := pieceBB_mirror p.board hlen hb (mkPiece c PAWN) hpc
+  rw [hm] at h
+  unfold scoreKingShelter
+  rw [ck_eq q (1 - c) PAWN (by omega) (by decide), ck_eq p c PAWN hc (by decide), hq]
+  have := ((kingMask_mirror k hk).and h).popcount
+  unfold pc
+  rw [this]
+
+def rightsMirrorOK : Bool := (List.range 16).all fun r =>
+  (decide (mirrorRights r &&& B_OO ≠ 0) == decide (r &&& W_OO ≠ 0)) && (decide (mirrorRights r &&& B_OOO ≠ 0) == decide (r &&& W_OOO ≠ 0)) &&
+  (decide (mirrorRights r &&& W_OO ≠ 0) == decide (r &&& B_OO ≠ 0)) && (decide (mirrorRights r &&& W_OOO ≠ 0) == decide (r &&& B_OOO ≠ 0))
+theorem rightsMirrorOK_true : rightsMirrorOK = true := by decide +kernel
+
+/-- C13 (a whole function of score.cpp): `score_king_safety` — the best pawn shelter among the king's square and the squares it may
+    still castle to, minus the king–pawn distances — of colour `c` equals that of the other colour on the mirrored position
+    (mirrored board, castling rights swapped) -/
+theorem C13_king_safety_mirror (p q : Position) (hq : q.board = mirrorBoard p.board) (hlen : p.board.length = 64)
+    (hb : ∀ x, x ∈ p.board → x ≤ 12) (hr : p.castling < 16) (c k : Nat) (hc : c ≤ 1) (hk : KingAt p.board c k) :
+    scoreKingSafety (BBs.of q) q.board (mirrorRights p.castling) (1 - c) = scoreKingSafety (BBs.of p) p.board p.castling c := by
+  have hR := rightsMirrorOK_true
+  simp only [rightsMirrorOK, List.all_eq_true, List.mem_range, Bool.and_eq_true, beq_iff_eq, decide_eq_decide] at hR
+  obtain ⟨⟨⟨r1, r2⟩, r3⟩, r4⟩ := hR p.castling hr
+  have hks : kingSq q.board (1 - c) = flipV (kingSq p.board c) := by rw [hq]; exact (C13_king_mirror p.board hlen hb c k hc hk).2
+  have hk64 : kingSq p.board c < 64 := by rw [kingSq_eq p.board c k hlen hk]; exact hk.lt
+  have hsh : ∀ t, t < 64 → scoreKingShelter (BBs.of q) (1 - c) (flipV t) = scoreKingShelter (BBs.of p) c t :=
+    fun t ht => C13_king_shelter_mirror p q hq hlen hb c hc t ht
+  have hm : mirrorPiece (mkPiece c PAWN) = mkPiece (1 - c) PAWN := by
+    have : c = 0 ∨ c = 1 := by omega
+    rcases this with rfl | rfl <;> decide
+  have hpc : mkPiece c PAWN ≤ 12 := by
+    have : c = 0 ∨ c = 1 := by omega
+    rcases this with rfl | rfl <;> decide
+  have hpawns := pieceBB_mirror p.board hlen hb (mkPiece c PAWN) hpc
+  rw [hm] at hpawns
+  have hsum : ∀ init : Sc,
+      (bitsOf ((BBs.of q).ck (1 - c) PAWN)).foldl (fun acc s => acc + KING_PAWN_PROXIMITY_PENALTY.scale (distance (flipV (kingSq p.board c)) s)) init =
+      (bitsOf ((BBs.of p).ck c PAWN)).foldl (fun acc s => acc + KING_PAWN_PROXIMITY_PENALTY.scale (distance (kingSq p.board c) s)) init := by
+    intro init
+    rw [ck_eq q (1 - c) PAWN (by omega) (by decide), ck_eq p c PAWN hc (by decide), hq]
+    exact hpawns.sum_eq _ _ (fun s hs => by rw [(C13_geometry (kingSq p.board c) s hk64 ((mem_bitsOf _ s).1 hs).1).2.2.2.2.2]) init
+  have hc' : c = 0 ∨ c = 1 := by omega
+  unfold scoreKingSafety
+  simp only [hks]
+  rw [hsum]
+  congr 1
+  rcases hc' with rfl | rfl
+  · -- white on the board, black on the mirror
+    have e6 : relSquare 1 6 = flipV (relSquare 0 6) := by decide
+    have e2 : relSquare 1 2 = flipV (relSquare 0 2) := by decide
+    have e1 : relSquare 1 1 = flipV (relSquare 0 1) := by decide
+    simp only [show (1 - 0 : Nat) = 1 from rfl, if_neg (show ¬ (1 : Nat) = 0 by decide), ↓reduceIte, e6, e2, e1]
+    rw [hsh _ hk64, hsh _ (by decide), hsh _ (by decide), hsh _ (by decide)]
+    simp only [r1, r2]
+  · have e6 : relSquare 0 6 = flipV (relSquare 1 6) := by decide
+    have e2 : relSquare 0 2 = flipV (relSquare 1 2) := by decide
+    have e1 : relSquare 0 1 = flipV (relSquare 1 1) := by decide
+    simp only [show (1 - 1 : Nat) = 0 from rfl, if_neg (show ¬ (1 : Nat) = 0 by decide), ↓reduceIte, e6, e2, e1]
+    have h0 := hsh
+    simp only [show (1 - 1 : Nat) = 0 from rfl] at h0
+    rw [h0 _ hk64, h0 _ (by decide), h0 _ (by decide), h0 _ (by decide)]
+    simp only [r3, r4]
+
+/-- **C13, the pawn evaluation (the part `PositionScorer` caches under the pawn key) is colour-symmetric**: for every well-formed
+    position `p` and every position `q` carrying the mirrored board, `score_pawns_for_side` of either colour on `q` is that of the other
+    colour on `p`, so the cached pawn score (white minus black) changes sign.  Lemmas/MirrorPawn.lean: one pawn's term reads ten
+    features — population counts and zero tests of the two pawn bitboards against constant masks (neighbour files, ranks, attack
+    squares, their forward shift, the passed-pawn and backward-pawn zones, the square ahead and behind, the centre) — and the masks of
+    (colour, square) and (other colour, flipped square) are flips of each other for all 2 × 48 pairs (`pawnConstOK`, kernel-evaluated);
+    the sum over the pawns is a sum over a permutation (`MirrorBB.sum_eq`). -/
+theorem C13_pawn_score_mirror (p q : Position) (hwf : Spec.wf (Chess.absPos p) = true) (hq : q.board = mirrorBoard p.board) :
+    scorePawnsForSide (BBs.of q) 0 = scorePawnsForSide (BBs.of p) 1 ∧ scorePawnsForSide (BBs.of q) 1 = scorePawnsForSide (BBs.of p) 0 ∧
+    (pawnScore (BBs.of q)).mg = -(pawnScore (BBs.of p)).mg ∧ (pawnScore (BBs.of q)).eg = -(pawnScore (BBs.of p)).eg := by
+  obtain ⟨hbo, _, _, hcodes, _⟩ := wf_board_hyps _ hwf
+  have hlen : p.board.length = 64 := hbo.len
+  have hedge0 : Spec.noPawnsOnEdge p.board = true := by
+    have h := hwf
+    unfold Spec.wf at h
+    simp only [Bool.and_eq_true] at h
+    exact h.1.1.2
+  have hedge := (noPawnsOnEdge_iff p.board).1 hedge0
+  have key : ∀ c, c ≤ 1 → scorePawnsForSide (BBs.of q) (1 - c) = scorePawnsForSide (BBs.of p) c := by
+    intro c hc
+    have hc1 : 1 - c ≤ 1 := by omega
+    have e : 1 - (1 - c) = c := by omega
+    have hm : ∀ d, d ≤ 1 → mirrorPiece (mkPiece d PAWN) = mkPiece (1 - d) PAWN ∧ mkPiece d PAWN ≤ 12 ∧ kindOf (mkPiece d PAWN) = 1 := by
+      intro d hd
+      have : d = 0 ∨ d = 1 := by omega
+      rcases this with rfl | rfl <;> decide
+    have two : (2 : Nat) ^ 64 = two64 := by decide
+    have hO := pieceBB_mirror p.board hlen hcodes (mkPiece c PAWN) (hm c hc).2.1
+    rw [(hm c hc).1] at hO
+    have hT := pieceBB_mirror p.board hlen hcodes (mkPiece (1 - c) PAWN) (hm _ hc1).2.1
+    rw [(hm _ hc1).1, e] at hT
+    apply scorePawns_mirror (BBs.of p) (BBs.of q) c hc
+    · rw [ck_eq p c PAWN hc (by decide), ck_eq q (1 - c) PAWN hc1 (by decide), hq]; exact hO
+    · rw [ck_eq p (1 - c) PAWN hc1 (by decide), ck_eq q c PAWN hc (by decide), hq]; exact hT
+    · rw [ck_eq p c PAWN hc (by decide), two]; exact bbOfPiece_lt _ _ hlen
+    · rw [ck_eq q (1 - c) PAWN hc1 (by decide), two, hq]; exact bbOfPiece_lt _ _ (mirrorBoard_length _)
+    · rw [ck_eq p (1 - c) PAWN hc1 (by decide), two]; exact bbOfPiece_lt _ _ hlen
+    · rw [ck_eq q c PAWN hc (by decide), two, hq]; exact bbOfPiece_lt _ _ (mirrorBoard_length _)
+    · intro s hs
+      rw [ck_eq p c PAWN hc (by decide)] at hs
+      obtain ⟨hs64, hbit⟩ := (mem_bitsOf _ s).1 hs
+      rw [bbOfPiece_testBit] at hbit
+      simp only [Bool.and_eq_true, decide_eq_true_eq] at hbit
+      have hk : kindOf (gd p.board s) = 1 := by
+        show kindOf (p.board.getD s 0) = 1
+        rw [hbit.2]; exact (hm c hc).2.2
+      constructor
+      · apply Classical.byContradiction; intro hlt
+        exact hedge s (Or.inl (by omega)) hk
+      · apply Classical.byContradiction; intro hge
+        exact hedge s (Or.inr ⟨by omega, hs64⟩) hk
+  have k0 := key 1 (by omega)
+  have k1 := key 0 (by omega)
+  simp only [show (1 - 1 : Nat) = 0 from rfl, show (1 - 0 : Nat) = 1 from rfl] at k0 k1
+  refine ⟨k0, k1, ?_, ?_⟩
+  · unfold pawnScore; rw [k0, k1]
+    show (scorePawnsForSide (BBs.of p) 1).mg - (scorePawnsForSide (BBs.of p) 0).mg = -((scorePawnsForSide (BBs.of p) 0).mg - (scorePawnsForSide (BBs.of p) 1).mg)
+    omega
+  · unfold pawnScore; rw [k0, k1]
+    show (scorePawnsForSide (BBs.of p) 1).eg - (scorePawnsForSide (BBs.of p) 0).eg = -((scorePawnsForSide (BBs.of p) 0).eg - (scorePawnsForSide (BBs.of p) 1).eg)
+    omega
 
 end Chess.Props
